@@ -63,6 +63,9 @@ def _own_walk(stmts):
     while stack:
         n = stack.pop()
         yield n
+        if isinstance(n, (ast.FunctionDef, ast.AsyncFunctionDef,
+                          ast.ClassDef, ast.Lambda)):
+            continue        # a nested def among the statements themselves
         for c in ast.iter_child_nodes(n):
             if isinstance(c, (ast.FunctionDef, ast.AsyncFunctionDef,
                               ast.ClassDef, ast.Lambda)):
@@ -1140,6 +1143,12 @@ def untuple_results(trees, imports):
             for holder, call in sites:
                 asg = [s for s in _own_walk(holder.body)
                        if isinstance(s, ast.Assign) and s.value is call]
+                if len(asg) == 1 and len(asg[0].targets) == 1 and \
+                        isinstance(asg[0].targets[0], ast.Tuple) and len(
+                            asg[0].targets[0].elts) == len(fields) and \
+                        not any(isinstance(e, ast.Starred)
+                                for e in asg[0].targets[0].elts):
+                    continue        # unpacked on the spot: a tuple already
                 if len(asg) != 1 or len(asg[0].targets) != 1 or not \
                         isinstance(asg[0].targets[0], ast.Name):
                     conform = False
@@ -1175,6 +1184,8 @@ def untuple_results(trees, imports):
             for holder, call in sites:
                 asg = [s for s in _own_walk(holder.body)
                        if isinstance(s, ast.Assign) and s.value is call][0]
+                if isinstance(asg.targets[0], ast.Tuple):
+                    continue
                 v = asg.targets[0].id
                 asg.targets = [ast.copy_location(ast.Tuple(
                     elts=[ast.Name(id='%s__%s' % (v, fld), ctx=ast.Store())
